@@ -42,6 +42,7 @@ def image_of(fn, claims_fn=None, width_map=None):
     img["logsetup"] = 0
     img["dma"] = 0
     img["allocsite"] = 0
+    img["track"] = 0
     img["memtop"] = 0
     img["srctop"] = 0
     return img
